@@ -73,8 +73,13 @@ def _newest_mtime(paths):
     return m
 
 
+# flags a harness always needs (also when pre-built by tools/setup.sh)
+HARNESS_FLAGS = {"matrix_run": ("-fopenmp",)}
+
+
 def build_harness(name, extra_flags=()):
     """Compile harness/<name>.cpp against the hooked library when out of date."""
+    extra_flags = tuple(extra_flags) + tuple(f for f in HARNESS_FLAGS.get(name, ()) if f not in extra_flags)
     lib = build_lib()
     os.makedirs(BIN, exist_ok=True)
     tag = "" if REPO == "/repo" else "-" + hashlib.md5(REPO.encode()).hexdigest()[:8]
